@@ -114,8 +114,8 @@ class Acc:
         for k, v in d["tables"].items():
             self.tables[k].update(v)
         self.nontrivial_overflow += d["nontrivial_overflow"]
-        for s in d["samples"]:
-            if len(self.samples) < 8:
+        for s in d["samples"][:2]:
+            if len(self.samples) < 14:
                 self.samples.append(s)
         for k, v in d["violations"].items():
             mine = self.violations.setdefault(k, {"key": k, "what": v["what"], "count": 0, "witnesses": []})
